@@ -4,6 +4,7 @@ import (
 	"fmt"
 	"go/token"
 	"go/types"
+	"strings"
 
 	"golang.org/x/tools/go/ssa"
 )
@@ -219,5 +220,133 @@ func checkDoneTokenConsumers(r *Report, s *Sem, R string) {
 	}
 	if n == 0 {
 		r.Undecided(R, "transports signalling Close with a token", "-", "none found (the in-process transport does)")
+	}
+}
+
+// checkSendMutexOnlyForSending (C19.R11): the channel's send mutex is acquired only by functions that then call
+// Transport.Send under it. Anything else that waits for it (Close, say) waits behind a send blocked on a peer that
+// stopped reading — with no context to give up on — and the client's rebuild, which closes the dead channel while
+// holding the lifetime lock, wedges every later operation.
+func checkSendMutexOnlyForSending(r *Report, s *Sem, R string) {
+	p := r.P
+	a := s.anchors()
+	if a.sendMu == nil {
+		r.Undecided(R, "anchor-unresolved:send mutex", "-", "not found")
+		return
+	}
+	n := 0
+	for _, fn := range p.LimeFuncs() {
+		eachCall(fn, func(c ssa.CallInstruction) {
+			op, mu := mutexOp(c)
+			if op != "Lock" || !(mu == a.sendMu.Name() || strings.HasSuffix(mu, "."+a.sendMu.Name())) {
+				return
+			}
+			n++
+			sends := false
+			eachCall(fn, func(c2 ssa.CallInstruction) {
+				if s.isTransportCall(c2, "Send") {
+					sends = true
+				}
+			})
+			r.Check(R, "func "+fnName(fn)+" / takes the send mutex only to send", p.instrPos(c), sends, "the function locks the send mutex but never calls Transport.Send: it can only be waiting behind someone else's blocked send")
+		})
+	}
+	if n == 0 {
+		r.Undecided(R, "send mutex / lock sites", "-", "none found")
+	}
+}
+
+// checkNoRecursiveReadLock (C19.R12): no function calls, while holding a read lock, a function of the package that
+// read-locks the same mutex again: a writer arriving between the two acquisitions blocks the inner one for ever
+// (sync.RWMutex read locks are not re-entrant), and every later operation on the client queues behind it.
+func checkNoRecursiveReadLock(r *Report, s *Sem, R string) {
+	p := r.P
+	locksOf := func(g *ssa.Function) map[string]bool {
+		out := map[string]bool{}
+		eachCall(g, func(c ssa.CallInstruction) {
+			if _, isDefer := c.(*ssa.Defer); isDefer {
+				return
+			}
+			if op, mu := mutexOp(c); op == "RLock" || op == "Lock" {
+				out[mu] = true
+			}
+		})
+		return out
+	}
+	n := 0
+	for _, fn := range p.LimeFuncs() {
+		hl := heldLocks(fn)
+		eachCall(fn, func(c ssa.CallInstruction) {
+			g := staticCallee(c)
+			if g == nil || g.Pkg != p.Lime {
+				return
+			}
+			held := hl[c.(ssa.Instruction)]
+			if len(held) == 0 {
+				return
+			}
+			// same receiver: the callee's receiver is the caller's receiver
+			if len(g.Params) == 0 || len(fn.Params) == 0 || len(c.Common().Args) == 0 {
+				return
+			}
+			same := false
+			recv := stripConv(c.Common().Args[0])
+			if recv == ssa.Value(fn.Params[0]) {
+				same = true
+			} else if u, ok := recv.(*ssa.UnOp); ok && u.Op == token.MUL {
+				// the receiver spilled to a cell (captured by a closure)
+				if al, ok := u.X.(*ssa.Alloc); ok {
+					if sv := singleStore(al); sv != nil && stripConv(sv) == ssa.Value(fn.Params[0]) {
+						same = true
+					}
+				}
+			}
+			if !same {
+				return
+			}
+			inner := locksOf(g)
+			for k := range held {
+				mu := k[2:]
+				if !inner[mu] {
+					continue
+				}
+				n++
+				r.Check(R, "func "+fnName(fn)+" / calls "+fnName(g)+" while holding "+k, p.instrPos(c), false, fnName(g)+" locks "+mu+" again on the same receiver: with a writer waiting in between, the second acquisition never succeeds")
+			}
+		})
+	}
+	r.Trivial(R, "nested acquisitions of one mutex on the same receiver", "-", true, fmt.Sprintf("%d found", n))
+}
+
+// checkSendPathReadsOnly (C17.R9): the channel's data sender hands the caller's envelope to the transport as it is — it
+// invokes nothing on it and stores nothing into it (an address resolved in place sticks to the envelope object, and the
+// next session it is sent on receives the first session's address).
+func checkSendPathReadsOnly(r *Report, s *Sem, R string) {
+	p := r.P
+	a := s.anchors()
+	n := 0
+	for _, fn := range a.dataSenders {
+		var env *ssa.Parameter
+		for _, pr := range fn.Params {
+			if _, isIface := pr.Type().Underlying().(*types.Interface); isIface {
+				if nm := namedOf(pr.Type()); nm != nil && nm.Obj().Pkg() == p.LimeT && nm.Obj().Name() != "Transport" {
+					env = pr
+				}
+			}
+		}
+		if env == nil {
+			continue
+		}
+		n++
+		bad := ""
+		eachCall(fn, func(c ssa.CallInstruction) {
+			if c.Common().IsInvoke() && stripConv(c.Common().Value) == ssa.Value(env) {
+				bad = "invokes " + c.Common().Method.Name() + " on the envelope at " + p.instrPos(c)
+			}
+		})
+		r.Check(R, "func "+fnName(fn)+" / the envelope is handed to the transport untouched", p.pos(fn.Pos()), bad == "", bad)
+	}
+	if n == 0 {
+		r.Undecided(R, "data senders with an envelope parameter", "-", "none found")
 	}
 }
